@@ -170,7 +170,7 @@ def run(ctx, res):
 
     # ---- escape / forceescape ------------------------------------------------------------------------------------
     rng = ctx.rng("escape")
-    strs = ["", "&", "&&amp;", "<>\"'&", "&#39;&#34;", "a&lt;b", "&amp;amp;"] + [rstr(rng, 10) for _ in range(ctx.pick(300, 3000))]
+    strs = ["", "&", "&&amp;", "<>\"'&", "&#39;&#34;", "a&lt;b", "&amp;amp;"] + [rstr(rng, 10) for _ in range(ctx.pick(300, 9000))]
     for s in strs:
         def call(s=s):
             import html
@@ -201,7 +201,7 @@ def run(ctx, res):
             return [rjson(depth + 1) for _ in range(rng.randrange(0, 4))]
         return {rstr(rng, 3): rjson(depth + 1) for _ in range(rng.randrange(0, 4))}
 
-    tojson_vals = [rjson() for _ in range(ctx.pick(250, 2500))] + ["</script><script>alert('&')</script>", "\\u003c", "\\\\", "\ud800x"]
+    tojson_vals = [rjson() for _ in range(ctx.pick(250, 7500))] + ["</script><script>alert('&')</script>", "\\u003c", "\\\\", "\ud800x"]
     tj_jobs = []
     for v in tojson_vals:
         for indent in (None, 2):
@@ -238,7 +238,7 @@ def run(ctx, res):
         elif not same:
             res.violate("C24:tojson:roundtrip", f"tojson({v!r}) = {str(out)!r} parses back to {back!r}", {"value": repr(v), "indent": indent})
     # the string-literal scanner of the round-trip theorem against json.loads
-    for v in [x for x in tojson_vals if isinstance(x, str) and wire_ok(x)][: ctx.pick(120, 1200)]:
+    for v in [x for x in tojson_vals if isinstance(x, str) and wire_ok(x)][: ctx.pick(120, 3600)]:
         for ea in (True, False):
             body = json.dumps(v, ensure_ascii=ea)[1:-1]
             chained = str(utils.htmlsafe_json_dumps(v, ensure_ascii=ea))[1:-1]
@@ -253,7 +253,7 @@ def run(ctx, res):
     keypool = ["class", "id", "data-x", "a b", "a\tb", "a\nb", "a\rb", "a\x0cb", "a\x0bb", "a/b", "a>b", "a=b", "on<x", "q\"q", "k'", "&k", "",
                "x\xa0y", "x\u2028y", "é", "a b=c", " ", "/"]
     und = Undefined(name="missing")
-    for _ in range(ctx.pick(400, 4000)):
+    for _ in range(ctx.pick(400, 12000)):
         items = []
         for _k in range(rng.randrange(0, 4)):
             k = rng.choice(keypool) if rng.random() < 0.7 else rstr(rng, 3)
@@ -272,7 +272,7 @@ def run(ctx, res):
 
     # ---- indent / replace / join / format / truncate / wordwrap --------------------------------------------------------
     rng = ctx.rng("markup-args")
-    for _ in range(ctx.pick(350, 3500)):
+    for _ in range(ctx.pick(350, 10000)):
         s = rval(rng, 7, 0.5)
         if rng.random() < 0.6:
             brk = ["\n", "\n", "\r\n", "\r", "\x0b", "\x85", "\u2028", "\n\n", " "]
@@ -287,7 +287,7 @@ def run(ctx, res):
         cases.append(Case("indent", [Atom("c24"), Atom("indent"), V(s), wenc, first, blank],
                           lambda s=s, w=w, first=first, blank=blank: outcome(lambda: filt(True, "indent", s, w, first, blank)),
                           "C24:indent", repr((s, w, first, blank))))
-    for _ in range(ctx.pick(400, 4000)):
+    for _ in range(ctx.pick(400, 12000)):
         s, old, new = rval(rng, 6, 0.45), rval(rng, 1, 0.25), rval(rng, 2, 0.25)
         if rng.random() < 0.5 and str(s):
             i = rng.randrange(len(str(s)))
@@ -297,13 +297,13 @@ def run(ctx, res):
         cases.append(Case("replace", [Atom("c24"), Atom("replace"), ae, V(s), V(old), V(new), Atom("none") if count is None else count],
                           lambda ae=ae, s=s, old=old, new=new, count=count: outcome(lambda: filt(ae, "replace", s, old, new, count)),
                           "C24:replace", repr((ae, s, old, new, count))))
-    for _ in range(ctx.pick(350, 3500)):
+    for _ in range(ctx.pick(350, 10000)):
         vals = [rval(rng, 3, 0.3) for _ in range(rng.randrange(0, 4))]
         d = rval(rng, 2, 0.3)
         ae = rng.random() < 0.75
         cases.append(Case("join", [Atom("c24"), Atom("join"), ae, [V(x) for x in vals], V(d)],
                           lambda ae=ae, vals=vals, d=d: outcome(lambda: filt(ae, "join", list(vals), d)), "C24:join", repr((ae, vals, d))))
-    for _ in range(ctx.pick(350, 3500)):
+    for _ in range(ctx.pick(350, 10000)):
         parts = [rng.choice(["%s", "%s", "%%", "<b>", "a", " ", "&", "'", "x=\"", "é"]) for _ in range(rng.randrange(0, 5))]
         f = "".join(parts)
         f = Markup(f) if rng.random() < 0.6 else f
@@ -311,7 +311,7 @@ def run(ctx, res):
         args = [rval(rng, 3, 0.3) for _ in range(nargs)]
         cases.append(Case("format", [Atom("c24"), Atom("format"), V(f), [V(a) for a in args]],
                           lambda f=f, args=args: outcome(lambda: filt(True, "format", f, *args)), "C24:format", repr((f, args))))
-    for _ in range(ctx.pick(350, 3500)):
+    for _ in range(ctx.pick(350, 10000)):
         s = rval(rng, 8, 0.5)
         if rng.random() < 0.6:
             s = type(s)(" ".join(rstr(rng, 2, ws=False) for _ in range(rng.randrange(1, 6))))
@@ -320,7 +320,7 @@ def run(ctx, res):
         cases.append(Case("truncate", [Atom("c24"), Atom("truncate"), V(s), length, kill, V(end), leeway],
                           lambda s=s, length=length, kill=kill, end=end, leeway=leeway: outcome(lambda: filt(True, "truncate", s, length, kill, end, leeway)),
                           "C24:truncate", repr((s, length, kill, end, leeway))))
-    for _ in range(ctx.pick(250, 2500)):
+    for _ in range(ctx.pick(250, 7500)):
         s = rval(rng, 8, 0.5)
         s = type(s)(rng.choice(["\n", " ", "\r\n", "\u2028"]).join(rstr(rng, 3, ws=False) + " " + rstr(rng, 2, ws=False) for _ in range(rng.randrange(1, 4))))
         ws_ = rval(rng, 1, 0.5) if rng.random() < 0.8 else "\n"
@@ -330,7 +330,7 @@ def run(ctx, res):
         cases.append(Case("wordwrap", [Atom("c24"), Atom("wordwrap"), V(s), V(ws_), table],
                           lambda s=s, width=width, blw=blw, ws_=ws_, boh=boh: outcome(lambda: filt(True, "wordwrap", s, width, blw, ws_, boh)),
                           "C24:wordwrap", repr((s, width, blw, ws_, boh))))
-    for _ in range(ctx.pick(150, 1500)):
+    for _ in range(ctx.pick(150, 4500)):
         s = "".join(rng.choice(["a", "", "b c", "<"]) + rng.choice(["\n", "\r", "\r\n", "\x0b", "\x0c", "\x1c", "\x1d", "\x1e", "\x85", "\u2028", "\u2029", "\x1f", " ", "\n\r"])
                     for _ in range(rng.randrange(0, 5))) + rng.choice(["", "z"])
         cases.append(Case("splitlines", [Atom("c24"), Atom("splitlines"), s], lambda s=s: s.splitlines(), "C24:model:splitlines", repr(s)))
@@ -428,7 +428,7 @@ def run_urlize(ctx, res, jinja2, dist, nontrivial):
     rng = ctx.rng("urlize")
     texts = ["", "http://example.com", "(www.foo.com).", "<http://a.org>", "mailto:me@x.org, me@x.org", "a@b", "foo.info\nbar",
              "http://a.com\" onclick=\"x", "((http://a.com/p(1)))", "&lt;x.org&gt;", "ftp://h/x tel:+1", "http://a.com\x0bb.org\x1cwww.c.com"]
-    texts += [rurl(rng) for _ in range(ctx.pick(300, 3000))] + [rstr(rng, 8) for _ in range(ctx.pick(150, 1500))]
+    texts += [rurl(rng) for _ in range(ctx.pick(300, 9000))] + [rstr(rng, 8) for _ in range(ctx.pick(150, 4500))]
     texts = [t for t in texts if wire_ok(t)]
     mids = core.driver_batch([[Atom("c24"), Atom("urlize-middles"), t] for t in texts])
     reqs, jobs = [], []
@@ -472,7 +472,7 @@ def run_urlize(ctx, res, jinja2, dist, nontrivial):
     ec = nodes.EvalContext(env)
     f_reqs, f_jobs = [], []
     bad_schemes = ["", ":", "a:", "<x:", "x y:", "ftp:///", "java script:", "ab", "a\"b:", "ab:x", "é:"]
-    for t in texts[: ctx.pick(200, 2000)]:
+    for t in texts[: ctx.pick(200, 6000)]:
         env.policies["urlize.rel"] = rng.choice(["noopener", None, "x\"y", "a b"])
         env.policies["urlize.target"] = rng.choice([None, "_blank", "'t'"])
         env.policies["urlize.extra_schemes"] = rng.choice([None, ["ftp://"], ["tel:"]])
@@ -563,7 +563,7 @@ def run_e2e(ctx, res, jinja2, dist, nontrivial):
     ]
     reqs, jobs = [], []
     renders = 0
-    for _ in range(ctx.pick(60, 600)):
+    for _ in range(ctx.pick(60, 1500)):
         data = {"x": rstr(rng, 6), "y": rstr(rng, 4), "w": rstr(rng, 2), "u": rurl(rng), "n": rng.choice([0, 4, 12, 40])}
         for kind, src in TPL:
             try:
